@@ -251,10 +251,11 @@ TxEndpoint(r, h, k) ==
         pk == e.cfg.peer
         splitDel == isData /\ IsSplit(e, s, r.plen) /\ Live(pk) /\ D(s, eps[pk].rnxt) <= 0
         e2 == [Emitted(e1, h.ack, wnd, now) EXCEPT !.splitDelivered = @ \/ splitDel, !.lastEmitAt = now,
+                                                   !.splitWhy = IF ~e.splitDelivered /\ splitDel THEN e.popWhy ELSE @,
                                                    !.synAcks = IF handshake /\ h.type = ST_STATE /\ (e.txCount = 0 \/ ~e.stim) THEN @ + 1 ELSE @,
                                                    !.idleWr = IF isData THEN 0 ELSE @,
                                                    !.drainDue = IF isData THEN 0 ELSE @]
-    IN  /\ JudgeCtx(k, common \cup data \cup fin \cup post, IF e.splitDelivered THEN "split-of-delivered-probe" ELSE "")
+    IN  /\ JudgeCtx(k, common \cup data \cup fin \cup post, SplitCtx(e))
         /\ eps' = [eps EXCEPT ![k] = e2]
         /\ infl' = IF r.fate \in {"deliver", "dup"} THEN Put(infl, r.id, k) ELSE infl
         /\ last' = [last EXCEPT !.tx = [k |-> k, type |-> h.type, seq |-> s, first |-> first,
@@ -412,7 +413,9 @@ Disp(r) ==
                 e1 == CASE w = "consumed" /\ s = Nx(e.rnxt, 1) -> DispConsumed(e, s, plen, now, l)
                         [] w = "out_of_order" /\ s \notin DOMAIN e.held /\ D(s, Nx(e.rnxt, 1)) > 0 -> DispOutOfOrder(e, s, plen, now, l)
                         [] w \in {"duplicate", "already_present"} -> DispDuplicate(e, now, l)
-                        [] w = "fin_accepted" -> DispFinAccepted(e, s, now, l)
+                        \* (a FIN taken in out of sequence does not move the specification's in-order point: the ACK that
+                        \*  follows then breaks C04.AckExact as well as the FIN rules)
+                        [] w = "fin_accepted" /\ R_C17_PeerFinInOrder(e, s) -> DispFinAccepted(e, s, now, l)
                         [] w = "fin_repeat" -> DispDuplicate(e, now, l)
                         [] OTHER -> e
                 rules == {
@@ -437,7 +440,17 @@ Disp(r) ==
                 \* C02 "blocked readers/writers are always woken when their condition changes": end-of-stream became
                 \* readable while a read was waiting
                 e2 == [e1 EXCEPT !.eofDue = IF w = "fin_accepted" /\ e.readPend THEN l ELSE @]
-            IN  Judge(k, rules \cup { <<"C02.ReaderWoken", e2.eofDue > 0 /\ e.eofDue = 0, TRUE>> }) /\ eps' = [eps EXCEPT ![k] = e2]
+                \* known finding D1b, second shape: the probe was still on its way when the sender cut its bytes again
+                \* under the same number, and is taken in now - with a length the sender no longer has for that number
+                pk == e.cfg.peer
+                lateProbe == /\ w \in {"consumed", "out_of_order"} /\ Live(pk) /\ pk # k /\ s \in DOMAIN eps[pk].segs
+                             /\ eps[pk].segs[s].ver > 1 /\ plen # eps[pk].segs[s].len
+            IN  /\ Judge(k, rules \cup { <<"C02.ReaderWoken", e2.eofDue > 0 /\ e.eofDue = 0, TRUE>> })
+                /\ eps' = IF lateProbe
+                           THEN [eps EXCEPT ![k] = e2,
+                                            ![pk] = [@ EXCEPT !.splitDelivered = TRUE,
+                                                              !.splitWhy = IF eps[pk].splitDelivered THEN @ ELSE eps[pk].popWhy]]
+                           ELSE [eps EXCEPT ![k] = e2]
 
 ---------------------------------------------------------------------------
 (* Application calls.                                                      *)
@@ -497,8 +510,17 @@ Ret(r) ==
                           /\ JudgeCtx(k, okc \cup {
                                <<"C01.ReadIsPrefix", TRUE, R_C01_ReadIsPrefix(e, r.runs, r.n)>>,
                                <<"C01.ReadWithinWritten", hasPeer, ~hasPeer \/ R_C01_ReadWithinWritten(e, r.n, eps[pk].wr)>> },
-                               IF hasPeer /\ eps[pk].splitDelivered THEN "split-of-delivered-probe" ELSE "")
-                          /\ eps' = [eps EXCEPT ![k] = AppRead(e, r.n, r.want)]
+                               IF hasPeer THEN SplitCtx(eps[pk]) ELSE "")
+                          \* C07 "... immediately ... when the receive window re-opens from zero": the last packet advertised a
+                          \* zero window because the buffer was full, and this read frees room for two segments or more
+                          \* (strictest reading of "re-opens"; open sending direction of the peer)
+                          /\ LET e1 == AppRead(e, r.n, r.want)
+                                 seg == Max(e.codeMss, OwnMss(e))
+                                 reopen == /\ e.lastWnd = 0 /\ e.txCount > 0 /\ e.peerFin < 0 /\ e.dying = "" /\ ~e.ended
+                                           /\ e.state \in {"established", "fin-wait-1", "fin-wait-2"}
+                                           /\ e.cfg.rx_buf - Stored(e) < seg
+                                           /\ e.cfg.rx_buf - Stored(e1) >= 2 * seg
+                             IN  eps' = [eps EXCEPT ![k] = [e1 EXCEPT !.ackImm = IF reopen /\ @ = 0 THEN l ELSE @]]
                      [] r.op = "read" /\ r.res \in {"eof", "err"} ->
                           /\ JudgeCtx(k, okc \cup {
                                <<"C03.EofOnlyAfterFin", r.res = "eof", R_C03_EofOnlyAfterFin(e)>>,
@@ -741,7 +763,7 @@ Next ==
               (LET k == Key(r) IN
                /\ UNCHANGED <<run, now, meta, sendIdx, app, infl, sk, pairs, last>> /\ NoJudge
                /\ IF ~Live(k) THEN UNCHANGED eps
-                  ELSE eps' = [eps EXCEPT ![k] = ProbePopped(@, r.seq, r.why = "expired")])
+                  ELSE eps' = [eps EXCEPT ![k] = [ProbePopped(@, r.seq, r.why = "expired") EXCEPT !.popWhy = r.why]])
          [] r.ev = "conn_new"  -> ConnNew(r)
          [] r.ev = "dying"     -> Dying(r)
          [] r.ev = "end"       -> End(r)
